@@ -97,6 +97,43 @@ def expected_types(alg):
     return None
 
 
+# RFC 7638, computed here (not by joserfc): the REQUIRED members of the key type,
+# in lexicographic order, no whitespace, SHA-256, base64url
+REQUIRED = {"oct": ["k", "kty"], "RSA": ["e", "kty", "n"], "EC": ["crv", "kty", "x", "y"], "OKP": ["crv", "kty", "x"]}
+
+
+def my_thumb(d):
+    import hashlib
+    req = REQUIRED[d["kty"]]
+    txt = "{" + ",".join("%s:%s" % (json.dumps(k), json.dumps(d[k])) for k in sorted(req)) + "}"
+    return b64u(hashlib.sha256(txt.encode("utf-8")).digest())
+
+
+ORDERS = ["native", "kty_first", "kty_last", "rev", "sorted", "kid_first"]
+
+
+def reorder(d, order):
+    """the same JWK with another member order (the order of a JSON object carries no meaning)"""
+    if order in (None, "native"):
+        return dict(d)
+    ks = list(d)
+    if order == "kty_first":
+        ks = ["kty"] + [k for k in ks if k != "kty"]
+    elif order == "kty_last":
+        ks = [k for k in ks if k != "kty"] + ["kty"]
+    elif order == "rev":
+        ks = ks[::-1]
+    elif order == "sorted":
+        ks = sorted(ks)
+    elif order == "kid_first":
+        ks = [k for k in ("kid", "y", "x", "crv", "kty") if k in d] + [k for k in ks if k not in ("kid", "y", "x", "crv", "kty")]
+    return {k: d[k] for k in ks}
+
+
+def gen_orders(rng, n):
+    return [rng.choice(ORDERS) for _ in range(n)]
+
+
 NONSTR_KIDS = [0, 1, True, False, None, [], ["a"], {}, {"a": 1}, 1.5, 0.0]
 STR_KIDS = ["k1", "k2", "a", "key-3", "é中", "\U0001F511x", " ", "0", "None", "kid"]
 
@@ -117,7 +154,7 @@ class H:
 
     # ---- identity of key material
     def mid(self, key):
-        t = key.thumbprint()
+        t = my_thumb(key.dict_value)
         if t not in self.tid:
             raise RuntimeError("key material not from the pool")
         return self.tid[t]
@@ -125,7 +162,7 @@ class H:
     def add_pool(self, key, sub):
         d = key.as_dict(private=True)
         d.pop("kid", None)
-        t = key.thumbprint()
+        t = my_thumb(d)
         self.tid[t] = len(self.pool)
         THUMB_NAMES[t] = "th%d" % len(self.pool)
         self.pool.append({"jwk": d, "kty": d["kty"], "sub": sub, "thumb": t})
@@ -144,27 +181,29 @@ class H:
     def load_pool(self, entries):
         from joserfc.jwk import JWKRegistry
         for e in entries:
-            k = JWKRegistry.import_key(dict(e["jwk"]))
-            self.tid[k.thumbprint()] = len(self.pool)
+            self.tid[my_thumb(e["jwk"])] = len(self.pool)
             self.pool.append(dict(e))
 
-    def build_key(self, spec):
-        """spec = (pool index, kid or None).  RSA objects are cached (import costs 50 ms)."""
+    def build_key(self, spec, order=None):
+        """spec = (pool index, kid or None); order: member order of the JWK dict the key is imported from.
+        RSA objects are cached (import costs 50 ms)."""
         from joserfc.jwk import JWKRegistry
         i, kid = spec
         p = self.pool[i]
-        if p["kty"] == "RSA":
-            ck = (i, kid)
-            if ck not in self.rsa_objs:
-                d = dict(p["jwk"])
-                if kid is not None:
-                    d["kid"] = kid
-                self.rsa_objs[ck] = JWKRegistry.import_key(d)
-            return self.rsa_objs[ck]
         d = dict(p["jwk"])
         if kid is not None:
             d["kid"] = kid
-        return JWKRegistry.import_key(d)
+        if p["kty"] == "RSA":
+            order = order if order in ("kty_first", "sorted") else "native"
+            ck = (i, kid, order)
+            if ck not in self.rsa_objs:
+                self.rsa_objs[ck] = JWKRegistry.import_key(reorder(d, order))
+            return self.rsa_objs[ck]
+        return JWKRegistry.import_key(reorder(d, order))
+
+    def build_keys(self, spec):
+        orders = spec.get("orders") or [None] * len(spec["keys"])
+        return [self.build_key(tuple(s), o) for s, o in zip(spec["keys"], orders)]
 
     def c_key(self, key):
         kid = key.dict_value.get("kid")
@@ -284,7 +323,7 @@ class Other:            # not a key, not a key set, not callable
 def build_source(h, spec):
     """-> (argument for the key parameter, description for the Coq term)"""
     from joserfc.jwk import KeySet
-    keys = [h.build_key(tuple(s)) for s in spec["keys"]]
+    keys = h.build_keys(spec)
     raw_before = [h.c_key(k) for k in keys]
     ks = KeySet(keys) if spec["src"] != "emptyset" else KeySet([])
     src = spec["src"]
@@ -330,7 +369,7 @@ def build_sender(h, sspec):
     from joserfc.jwk import KeySet
     if sspec is None:
         return None, None, []
-    keys = [h.build_key(tuple(s)) for s in sspec["keys"]]
+    keys = h.build_keys(sspec)
     if sspec["src"] == "set":
         return KeySet(keys), ("set", keys), keys
     return keys[sspec["src_i"]], ("key", keys[sspec["src_i"]]), keys
@@ -350,8 +389,30 @@ def algs_of(spec):
 
 
 def jwe_registry(spec):
+    """JWERegistry in the configuration of the scenario (spec["reg"]: verify_all_recipients, strict_check_header)"""
     from joserfc import jwe
-    return jwe.JWERegistry(algorithms=algs_of(spec))
+    cfg = spec.get("reg") or {}
+    return jwe.JWERegistry(algorithms=algs_of(spec), verify_all_recipients=cfg.get("va", True),
+                           strict_check_header=cfg.get("strict", True))
+
+
+def jws_kwargs(spec, r7797=False):
+    """algorithms=[...] or an explicit JWSRegistry (strict_check_header False)"""
+    cfg = spec.get("reg") or {}
+    if cfg.get("strict", True) and not cfg.get("explicit"):
+        return {"algorithms": algs_of(spec)}
+    if r7797:
+        from joserfc.rfc7797 import JWSRegistry as R
+    else:
+        from joserfc.jws import JWSRegistry as R
+    return {"registry": R(algorithms=algs_of(spec), strict_check_header=cfg.get("strict", True))}
+
+
+def gen_reg(rng, fam):
+    r = rng.random()
+    if fam == "jwe":
+        return {"va": rng.random() < 0.5, "strict": rng.random() < 0.7}
+    return {"strict": r < 0.6, "explicit": rng.random() < 0.5}
 
 
 def produce(h, spec):
@@ -446,15 +507,15 @@ def consume(h, spec):
         from joserfc import rfc7797
         if ser == "c7797":
             pl = bytes.fromhex(spec["payload_hex"]) if spec.get("give_payload") else None
-            out = call(rfc7797.deserialize_compact, token, arg, payload=pl, algorithms=algs_of(spec))
+            out = call(rfc7797.deserialize_compact, token, arg, payload=pl, **jws_kwargs(spec, True))
         elif ser == "j7797":
-            out = call(rfc7797.deserialize_json, token, arg, algorithms=algs_of(spec))
+            out = call(rfc7797.deserialize_json, token, arg, **jws_kwargs(spec, True))
         elif ser == "compact":
-            out = call(jws.deserialize_compact, token, arg, algorithms=algs_of(spec))
+            out = call(jws.deserialize_compact, token, arg, **jws_kwargs(spec))
         elif ser == "jwt":
-            out = call(jwt.decode, token, arg, algorithms=algs_of(spec))
+            out = call(jwt.decode, token, arg, **jws_kwargs(spec))
         else:
-            out = call(jws.deserialize_json, token, arg, algorithms=algs_of(spec))
+            out = call(jws.deserialize_json, token, arg, **jws_kwargs(spec))
     else:
         reg = jwe_registry(spec)
         if ser == "compact":
@@ -560,7 +621,8 @@ def entry_case(h, rec, pids):
     n = len(rec["pre"])
     if rec["out"][0] != "ok":
         # members / recipients after the one at which the call failed were never looked at
-        n = max(1, min(n, len(groups)))
+        # (consuming side: the member after the last one looked up may be the one whose header was refused)
+        n = max(1, min(n, len(groups) + (0 if rec["ur"] else 1)))
     consistent = len(groups) >= n and all(g["guess"] is not None and g["guess"]["res"][0] == "ok" and g["last"]["res"][0] == "ok"
                                           for g in groups[:n])
     if rec["out"][0] == "ok" and not consistent:
@@ -594,7 +656,8 @@ def entry_case(h, rec, pids):
                                        c_nat(idx_of(groups[i]["guess"]) if i < len(groups) else 0),
                                        c_nat(idx_of(groups[i]["sender"]) if i < len(groups) else 0),
                                        c_N(pids[i])) for i in range(n)])
-    return "CJwe %s %s %s %s %s %s %s" % (h.tsel(), c_bool(rec["ur"]), c_mode(h, rec["mdesc"]), c_src(h, rec["desc"]),
+    va = (rec["spec"].get("reg") or {}).get("va", True)
+    return "CJwe %s %s %s %s %s %s %s %s" % (h.tsel(), c_bool(rec["ur"]), c_bool(va), c_mode(h, rec["mdesc"]), c_src(h, rec["desc"]),
                                           c_sender(h, rec["sdesc"]), rs, impl)
 
 
@@ -1110,25 +1173,59 @@ def main_loop(ctx, h, add, report, dist, onepu=False):
     from joserfc.errors import InvalidKeyIdError
     rng = h.rng
     n_scen = ctx.scale(36, 450) if onepu else ctx.scale(200, 3000)
+    errors = 0
     for scen in range(n_scen):
-        # ------------------------------------------------------------ produce
         if onepu:
             spec = gen_jwe_produce(h, onepu=True)
             if spec is None:
                 continue
         else:
             spec = gen_jws_produce(h) if rng.random() < 0.5 else gen_jwe_produce(h)
+        spec["orders"] = gen_orders(rng, len(spec["keys"]))
+        if spec.get("sender"):
+            spec["sender"]["orders"] = gen_orders(rng, len(spec["sender"]["keys"]))
+        try:
+            scenario(ctx, h, add, report, dist, spec)
+        except Exception:       # noqa: an unexpected behaviour of the library must not end the run
+            import traceback
+            tb = traceback.format_exc()
+            errors += 1
+            report({"kind": "scenario-error", "error": tb.strip().splitlines()[-1][:120]},
+                   "the library behaved in a way the check does not expect in this scenario: %s" % tb.strip().splitlines()[-1][:200],
+                   spec, {"traceback": tb[-3000:]})
+            h.logging = True
+            if errors >= 8:
+                break
+
+
+def check_auto_kids(h, keys, before_kids, spec, report, where):
+    """every key has a kid; an explicit kid is kept; an automatic kid is the RFC 7638 thumbprint
+    (computed here from the sorted required members), whatever the member order of the source"""
+    for k, b in zip(keys, before_kids):
+        a = k.dict_value.get("kid")
+        t = my_thumb(k.dict_value)
+        if a is None or (b is not None and a != b):
+            report({"kind": "keyset-kid-invariant"}, "%s left a key with kid %r (before: %r)" % (where, a, b), spec)
+        elif b is None and a != t:
+            report({"kind": "auto-kid-not-thumbprint", "kty": k.key_type},
+                   "%s: auto kid of the %s key (member order %s) is %s, the RFC 7638 thumbprint (independent computation: "
+                   "sorted required members) is %s" % (where, k.key_type, list(k.dict_value)[:6], a, t), spec)
+
+
+def scenario(ctx, h, add, report, dist, spec):
+    from joserfc.jwk import KeySet, JWKRegistry
+    from joserfc.errors import InvalidKeyIdError
+    rng = h.rng
+    if True:
         fam, ser = spec["fam"], spec["ser"]
         # KeySet construction on fresh key objects
-        fresh = [h.build_key(tuple(s)) for s in spec["keys"]]
+        fresh = h.build_keys(spec)
         before = h.c_keys(fresh)
         before_kids = [k.dict_value.get("kid") for k in fresh]
         kset = KeySet(fresh)
         after = [k.dict_value.get("kid") for k in kset.keys]
         add("CInit %s %s" % (before, c_list([c_opt(x, c_str) for x in after])), ("init", spec["keys"], spec, pool_ids(spec)))
-        for k, b, a in zip(fresh, before_kids, after):
-            if a is None or (b is not None and a != b) or (b is None and a != k.thumbprint()):
-                report({"kind": "keyset-kid-invariant"}, "KeySet(...) left a key with kid %r (before: %r, thumbprint %s)" % (a, b, k.thumbprint()), spec)
+        check_auto_kids(h, fresh, before_kids, spec, report, "KeySet(...)")
         keyset_level(ctx, h, add, report, spec, kset)
 
         rec = produce(h, spec)
@@ -1146,11 +1243,11 @@ def main_loop(ctx, h, add, report, dist, onepu=False):
                 if isinstance(kid, str) and kid and not any(k.kid == kid for k in rec["keys"]) and not isinstance(e, InvalidKeyIdError):
                     report({"kind": "produce-unknown-kid-error", "fam": fam, "ser": ser},
                            "kid %r names no key of the set: expected InvalidKeyIdError, got %r" % (kid, e), spec)
-            continue
+            return
         token = rec["out"][1]
         used = check_produced(h, rec, report)
         if any(u is None for u in used):
-            continue
+            return
         # ------------------------------------------------------------ consume what was produced
         cons = []
         base = {"fam": fam, "ser": ser, "token": token, "algs": spec["algs"], "sender": spec.get("sender")}
@@ -1163,9 +1260,13 @@ def main_loop(ctx, h, add, report, dist, onepu=False):
             k = "caller_dict_has_kid" if isinstance(cv, dict) and "kid" in cv else "caller_dict_without_kid"
             dist[k] = dist.get(k, 0) + 1
         if spec["src"] in ("set", "key"):
-            cons.append(dict(base, keys=spec["keys"], src="set", mode="direct"))
-            cons.append(dict(base, keys=spec["keys"], src="set", mode="call"))
+            cons.append(dict(base, keys=spec["keys"], src="set", mode="direct", orders=spec["orders"]))
+            # the consuming side builds ITS key objects from differently ordered JWK dicts, in another configuration
+            cons.append(dict(base, keys=spec["keys"], src="set", mode="call", orders=gen_orders(rng, len(spec["keys"])),
+                             reg=gen_reg(rng, fam)))
         for cs in cons:
+            if cs.get("sender"):
+                cs["sender"] = dict(cs["sender"], orders=gen_orders(rng, len(cs["sender"]["keys"])))
             cs["pids"] = used
             crec = consume(h, cs)
             for c in guess_cases(h, crec):
@@ -1187,19 +1288,32 @@ def judge_consume(h, crec, verdicts, report, what):
     from joserfc.errors import InvalidKeyIdError
     out = crec["out"]
     spec = crec["spec"]
-    # the first member that cannot succeed decides; sequencing between members is left to the model
+    fam = spec["fam"]
+    cfg = spec.get("reg") or {}
+    what = "%s [registry %s]" % (what, cfg or "default")
+    lenient = fam == "jwe" and not cfg.get("va", True)
+    # JWS: signatures are looked up and verified one after the other, the first one that cannot succeed decides;
+    # JWE: the keys of ALL recipients are looked up before anything is decrypted
+    decider = None
+    for v in verdicts:
+        if v == "ok" or (v == "fail" and fam == "jwe"):
+            continue
+        decider = v
+        break
     if all(v == "ok" for v in verdicts):
         if out[0] != "ok":
-            report({"kind": "consume-named-key-rejected", "fam": spec["fam"], "ser": spec["ser"]},
+            report({"kind": "consume-named-key-rejected", "fam": fam, "ser": spec["ser"]},
                    "%s: kid names the key it was made with, but consumption failed with %r" % (what, out[1]), spec)
-    else:
-        if out[0] == "ok":
-            report({"kind": "consume-accepted-wrong-key", "fam": spec["fam"], "ser": spec["ser"]},
-                   "%s: accepted although the kid does not name the producing key (%s)" % (what, verdicts), spec)
-        elif len(verdicts) == 1 and verdicts[0] == "kid-error" and not isinstance(out[1], InvalidKeyIdError):
-            # JWS validates the header first (C15); a string / absent kid passes that validation
-            report({"kind": "consume-unknown-kid-error", "fam": spec["fam"], "ser": spec["ser"]},
-                   "%s: no key for the kid (or no kid and several keys): expected InvalidKeyIdError, got %r" % (what, out[1]), spec)
+    elif out[0] == "ok":
+        if lenient and decider is None and any(v == "ok" for v in verdicts):
+            return      # verify_all_recipients=False: one recipient that decrypts suffices, every kid was resolved
+        report({"kind": "consume-accepted-wrong-key", "fam": fam, "ser": spec["ser"]},
+               "%s: accepted although the kid does not name the producing key (%s)" % (what, verdicts), spec)
+    elif decider == "kid-error" and not isinstance(out[1], InvalidKeyIdError):
+        # JWS validates the header first (C15); a string / absent kid passes that validation
+        report({"kind": "consume-unknown-kid-error", "fam": fam, "ser": spec["ser"]},
+               "%s: a kid names no key of the set (or no kid and several keys) %s: expected InvalidKeyIdError, got %r" % (
+                   what, verdicts, out[1]), spec)
 
 
 def keyset_level(ctx, h, add, report, spec, kset):
@@ -1285,8 +1399,7 @@ def keyset_level(ctx, h, add, report, spec, kset):
 
 
 def _thumb(d):
-    from joserfc.jwk import JWKRegistry
-    return JWKRegistry.import_key(dict(d)).thumbprint() if d.get("kty") != "RSA" else _rsa_thumb(d)
+    return my_thumb(d)
 
 
 _RSA_T = {}
@@ -1327,41 +1440,81 @@ def public_roundtrip(h, rec, used, token, report, add):
     if want != got:
         report({"kind": "import-export-roundtrip"}, "public export/import changed the keys: %r -> %r" % (want, got), spec)
         return
-    if any(k.is_private for k in pks.keys):
+    def consume_with(pks, label):
+        if any(k.is_private for k in pks.keys):
+            return
+        from joserfc import jws, jwt, rfc7797
+        h.log, h.choices = [], []
+        arg = pks if h.rng.random() < 0.5 else (lambda obj: pks)
+        if ser == "c7797":
+            out = call(rfc7797.deserialize_compact, token, arg, payload=_payload_of(spec), algorithms=spec["algs"])
+        elif ser == "j7797":
+            out = call(rfc7797.deserialize_json, copy.deepcopy(token), arg, algorithms=spec["algs"])
+        elif ser == "compact":
+            out = call(jws.deserialize_compact, token, arg, algorithms=spec["algs"])
+        elif ser == "jwt":
+            out = call(jwt.decode, token, arg, algorithms=spec["algs"])
+        else:
+            out = call(jws.deserialize_json, copy.deepcopy(token), arg, algorithms=spec["algs"])
+        log = h.log
+        kids = [k.kid for k in rec["keys"]]
+        if len(set(kids)) != len(kids):
+            return          # duplicate kids: the kid recorded does not name the producing key uniquely
+        if any(bool(merged(g).get("kid")) and not any(k.kid == merged(g).get("kid") for k in rec["keys"]) for g in rec["pre"]):
+            return          # (cannot happen for a produced token: an unknown kid was named)
+        if out[0] != "ok":
+            report({"kind": "public-set-rejects", "fam": fam, "ser": ser},
+                   "token produced with the private key set is rejected by the %s: %r" % (label, out[1]), spec)
+            return
+        got_ids = [e["res"][1][0] for e in log if e["fn"] == "guess" and e["res"][0] == "ok"]
+        if got_ids != used:
+            report({"kind": "public-set-other-key", "fam": fam, "ser": ser},
+                   "public set verified with keys %r, token made with %r" % (got_ids, used), spec)
+        # the same as Coq cases (model: import (export ks) then consume)
+        for e in log:
+            if e["fn"] == "guess":
+                exp_t = c_res(e["res"], lambda v: "(%s, %s, %s)" % (c_N(v[0]), c_opt(v[1], c_str), c_guest(v[2])))
+                add("CGuess %s %s (KSSet %s) %s false 0%%nat %s" % (h.tsel(), "MDirect", h.c_keys(pks.keys), c_guest(e["pre"]), exp_t),
+                    ("guess", "public set consume", spec, pool_ids(spec)))
+
+    consume_with(pks, "imported public export (as_dict(private=False)) of the same set")
+    pub2 = independent_public_set(h, rec, report)
+    if pub2 is None:
         return
-    from joserfc import jws, jwt, rfc7797
-    h.log, h.choices = [], []
-    arg = pks if h.rng.random() < 0.5 else (lambda obj: pks)
-    if ser == "c7797":
-        out = call(rfc7797.deserialize_compact, token, arg, payload=_payload_of(spec), algorithms=spec["algs"])
-    elif ser == "j7797":
-        out = call(rfc7797.deserialize_json, copy.deepcopy(token), arg, algorithms=spec["algs"])
-    elif ser == "compact":
-        out = call(jws.deserialize_compact, token, arg, algorithms=spec["algs"])
-    elif ser == "jwt":
-        out = call(jwt.decode, token, arg, algorithms=spec["algs"])
-    else:
-        out = call(jws.deserialize_json, copy.deepcopy(token), arg, algorithms=spec["algs"])
-    log = h.log
-    kids = [k.kid for k in rec["keys"]]
-    if len(set(kids)) != len(kids):
-        return          # duplicate kids: the kid recorded does not name the producing key uniquely
-    if any(bool(merged(g).get("kid")) and not any(k.kid == merged(g).get("kid") for k in rec["keys"]) for g in rec["pre"]):
-        return          # (cannot happen for a produced token: an unknown kid was named)
-    if out[0] != "ok":
-        report({"kind": "public-set-rejects", "fam": fam, "ser": ser},
-               "token produced with the private key set is rejected by the imported public export of the same set: %r" % (out[1],), spec)
-        return
-    got_ids = [e["res"][1][0] for e in log if e["fn"] == "guess" and e["res"][0] == "ok"]
-    if got_ids != used:
-        report({"kind": "public-set-other-key", "fam": fam, "ser": ser},
-               "public set verified with keys %r, token made with %r" % (got_ids, used), spec)
-    # the same as Coq cases (model: import (export ks) then consume)
-    for e in log:
-        if e["fn"] == "guess":
-            exp_t = c_res(e["res"], lambda v: "(%s, %s, %s)" % (c_N(v[0]), c_opt(v[1], c_str), c_guest(v[2])))
-            add("CGuess %s %s (KSSet %s) %s false 0%%nat %s" % (h.tsel(), "MDirect", h.c_keys(pks.keys), c_guest(e["pre"]), exp_t),
-                ("guess", "public set consume", spec, pool_ids(spec)))
+    consume_with(pub2, "public JWKS of the same keys built from the key material (other member order)")
+
+
+PUBLIC = {"EC": ["crv", "x", "y", "kty"], "OKP": ["crv", "x", "kty"], "RSA": ["n", "e", "kty"]}
+
+
+def independent_public_set(h, rec, report):
+    """the verifier's own JWKS: public members taken from the key material, explicit kids only, another member
+    order; keys without explicit kid must get the SAME (thumbprint) kid as on the producing side"""
+    from joserfc.jwk import KeySet
+    spec = rec["spec"]
+    ents2 = []
+    for sp in spec["keys"]:
+        pj = h.pool[sp[0]]["jwk"]
+        if pj["kty"] == "oct":
+            continue
+        d = {k: pj[k] for k in PUBLIC[pj["kty"]]}
+        if sp[1] is not None:
+            d["kid"] = sp[1]
+        ents2.append(reorder(d, h.rng.choice(ORDERS)))
+    if not ents2:
+        return None
+    pub2 = call(KeySet.import_key_set, {"keys": ents2})
+    if pub2[0] != "ok":
+        report({"kind": "import-export-raises"}, "import_key_set(public JWKS built from the key material) raised %r" % (pub2[1],), spec)
+        return None
+    want = [(k.kid, k.key_type, h.mid(k)) for k in rec["keys"] if k.key_type != "oct"]
+    got2 = [(k.kid, k.key_type, h.mid(k)) for k in pub2[1].keys]
+    if want != got2:
+        report({"kind": "public-jwks-other-kids"},
+               "the same keys imported from a public JWKS (other member order, no kid for thumbprint-kid keys) get other kids: "
+               "private set %r, public set %r" % (want, got2), spec)
+        return None
+    return pub2[1]
 
 
 def check_public_entries(h, rec, entries, report):
@@ -1382,6 +1535,7 @@ def check_public_entries(h, rec, entries, report):
 def public_set_checks(h, rec, report):
     from joserfc.jwk import KeySet
     spec = rec["spec"]
+    independent_public_set(h, rec, report)
     exp = call(rec["ks"].as_dict, private=False)
     if exp[0] != "ok":
         report({"kind": "export-raises"}, "KeySet.as_dict(private=False) raised %r" % (exp[1],), spec)
@@ -1459,8 +1613,11 @@ def forged_consume(ctx, h, add, report, spec, rec):
             else:
                 payload = b"forged"
                 members = []
-                for j in range(rng.choice([1, 2]) if fser == "general" else 1):
-                    where = place_kid(rng, present, kid, ["protected", "header"])
+                nm = rng.choice([1, 2, 3]) if fser == "general" else 1
+                odd = rng.choice([0, nm - 1])
+                for j in range(nm):
+                    where = place_kid(rng, present, kid, ["protected", "header"]) if j == odd else \
+                        place_kid(rng, True, fkey.kid, ["protected", "header"])
                     prot, hdr = {}, {}
                     (prot if rng.random() < 0.7 else hdr)["alg"] = alg
                     if "protected" in where:
@@ -1468,8 +1625,6 @@ def forged_consume(ctx, h, add, report, spec, rec):
                     if "header" in where:
                         hdr["kid"] = where["header"]
                     members.append((prot or None, hdr if (hdr or rng.random() < 0.2) else None))
-                    if j == 0 and fser == "general" and rng.random() < 0.5:
-                        present, kid = True, fkey.kid       # second member names the right key
             tk = call(forge_jws, h, fkey, alg, fser, members, payload)
             if tk[0] != "ok":
                 continue
@@ -1483,6 +1638,7 @@ def forged_consume(ctx, h, add, report, spec, rec):
             if sspec:
                 sender = h.build_key(tuple(sspec["keys"][0]))
             h.logging = False
+            multi_pids = None
             try:
                 if fser in ("compact", "jwt"):
                     prot = {"alg": alg, "enc": spec["algs"][1]}
@@ -1495,6 +1651,26 @@ def forged_consume(ctx, h, add, report, spec, rec):
                     if sender is not None:
                         prot["skid"] = sender.kid if rng.random() < 0.8 else rng.choice(["nope", ""])
                     tk = call(jwe.encrypt_compact, prot, b'{"sub":"forged"}', fkey, registry=reg, sender_key=sender)
+                elif (alg not in ("dir", "ECDH-ES", "ECDH-1PU") and sender is None and rng.random() < 0.55):
+                    # general JSON with 1-3 recipients, each made with its own key of the set and naming it;
+                    # afterwards ONE recipient (first / last / only) gets the chosen kid
+                    fser = "general"
+                    others = [k for i, k in enumerate(keys) if i in cands and k is not fkey]
+                    rng.shuffle(others)
+                    rkeys = [fkey] + others[:rng.choice([0, 1, 2])]
+                    rng.shuffle(rkeys)
+                    obj = jwe.GeneralJSONEncryption({"alg": alg, "enc": spec["algs"][1]}, b"forged", None)
+                    for rk in rkeys:
+                        obj.add_recipient({"kid": rk.kid}, rk)
+                    tk = call(jwe.encrypt_json, obj, None, registry=reg)
+                    if tk[0] == "ok":
+                        odd = rng.choice([0, len(rkeys) - 1])
+                        hd = tk[1]["recipients"][odd].setdefault("header", {})
+                        if present:
+                            hd["kid"] = kid
+                        else:
+                            hd.pop("kid", None)
+                        multi_pids = [h.mid(rk) for rk in rkeys]
                 else:
                     cls = jwe.FlattenedJSONEncryption if fser == "flat" else jwe.GeneralJSONEncryption
                     pos = rng.choice(["protected", "unprotected", "recipient"])
@@ -1519,7 +1695,7 @@ def forged_consume(ctx, h, add, report, spec, rec):
             if tk[0] != "ok":
                 continue
             token = tk[1]
-            pids = [fid]
+            pids = multi_pids if multi_pids else [fid]
         mode = rng.choice(["direct", "direct", "call"])
         cs = {"fam": fam, "ser": fser, "token": token, "algs": spec["algs"], "keys": spec["keys"], "src": "set", "mode": mode,
               "sender": spec.get("sender"), "pids": pids}
@@ -1528,6 +1704,12 @@ def forged_consume(ctx, h, add, report, spec, rec):
             cs["give_payload"] = give_payload
         if rng.random() < 0.12 and len(spec["keys"]) > 1:
             cs["keys"] = [spec["keys"][fi]] if rng.random() < 0.6 else [rng.choice(spec["keys"])]   # single-key set
+        cs["orders"] = gen_orders(rng, len(cs["keys"]))
+        cs["reg"] = gen_reg(rng, fam)
+        if cs["reg"].get("strict") is False and fam == "jws" and isinstance(token, dict) and rng.random() < 0.5:
+            # a member no registry knows, in an unprotected header (accepted only without strict_check_header)
+            tgt = token["signatures"][0] if "signatures" in token else token
+            tgt.setdefault("header", {})["xc14"] = "x"
         crec = consume(h, cs)
         for c in guess_cases(h, crec):
             add(c, ("guess", "%s %s consume forged" % (fam, fser), cs, pool_ids(cs)))
@@ -1580,17 +1762,15 @@ def replay(path):
             return 1 if found else 0
         from joserfc.jwk import KeySet
         from joserfc.errors import InvalidKeyIdError
-        kset = KeySet([h.build_key(tuple(s)) for s in spec["keys"]])
+        kset = KeySet(h.build_keys(spec))
         keys = kset.keys
         print("set kids:", [(k.kid, k.key_type) for k in keys])
-        if r.get("kind") == "keyset-kid-invariant":
-            fresh = [h.build_key(tuple(s)) for s in spec["keys"]]
+        if r.get("kind") in ("keyset-kid-invariant", "auto-kid-not-thumbprint"):
+            fresh = h.build_keys(spec)
             before = [k.dict_value.get("kid") for k in fresh]
             KeySet(fresh)
-            bad = [(b, k.dict_value.get("kid")) for b, k in zip(before, fresh)
-                   if k.dict_value.get("kid") is None or (b is not None and b != k.dict_value.get("kid"))]
-            print("kids before/after violating the invariant:", bad)
-            return 1 if bad else 0
+            check_auto_kids(h, fresh, before, spec, report, "KeySet(...)")
+            return 1 if found else 0
         if "kid" in r or "alg" in r:
             bad = False
             if "kid" in r:
@@ -1611,6 +1791,8 @@ def replay(path):
             return 1 if bad else 0
         rec = produce(h, spec)
         print("produce outcome:", rec["out"])
+        if spec["src"] == "set":
+            independent_public_set(h, rec, report)
         if rec["out"][0] == "ok":
             check_produced(h, rec, report)
             used = [u for u in check_produced(h, rec, lambda *a, **k: None)]
